@@ -330,7 +330,7 @@ func init() {
 		Bound:        [2]string{"<= 4 order deviations per execution", "<= 6 order deviations per execution"},
 		BudgetS:      [2]int{100, 900},
 		Extra: func(bool) map[string]interface{} {
-			b, err := os.ReadFile("/verif/bin/c15overlay/sites.json")
+			b, err := os.ReadFile(explore.VerifDir + "/bin/c15overlay/sites.json")
 			if err != nil {
 				return nil
 			}
